@@ -4,15 +4,20 @@
    merged into a prefix tree (equal packet prefixes give equal observations), one item per node:
 
      [p, d, kids  parent node (0: none), depth, children; node 1 is the initial state
-      k           "frag"
-      z           zone the packet was dispatched to
-      v, n        version and fragment number of the packet
-      exc         "" or the exception type that escaped Schedule._handle_msg
+      k           "frag" (a reply packet handed to Schedule._handle_msg)  |  "fetch" (Schedule.get_schedule() against
+                  a faithful controller that holds version v; nobody else holds the lock, nothing is lost)
+      z           zone the packet was dispatched to / whose schedule was fetched
+      v, n        version and fragment number of the packet (fetch: the controller's version, 0)
+      del         fetch: <<fragment numbers the controller was asked for and replied with>>; frag: <<>>
+      exc         "" or the exception type that escaped Schedule._handle_msg / get_schedule
       view        <<<<zone, x>>, ...>>  the public `Schedule.schedule` of every zone afterwards:
                   "none", a catalogue version id (deep-equal to that version's schedule),
                   "other" (a schedule equal to no version), or "raises:<T>"                    ]
    got (the fragments delivered so far) is re-derived from the events; the clause is
-   SchedFrags!AssembledV evaluated on the RECORDED public view of every zone.
+   SchedFrags!AssembledV evaluated on the RECORDED public view of every zone.  An exception is neither "the same
+   schedule" nor "no schedule": out of _handle_msg always, out of get_schedule within SchedFrags!InScope (all the
+   zone has been given are packets of the schedule the controller holds - the statement's quantifier; a fetch after
+   the schedule was replaced may end with an error, C18).
      fail (per node) = <<>>  or  <<depth, clause>>  (clauses: "harness", "Raises", "SameOrNone");
      a clause is reported at the first node of a path where it fails.                          *)
 EXTENDS SchedFrags, Json, IOUtils
@@ -34,15 +39,19 @@ TInit == tid = 1 /\ fail = <<>> /\ done = {} /\ Init
 TStep ==
   \E n \in ToSet(Nodes[tid].kids) :
      LET e == Nodes[n]
-         harnessOk == e.k = "frag" /\ e.z \in Zones /\ e.v \in Vers /\ e.n \in 1..NF[e.v] /\ ZoneOf[e.v] = e.z
+         harnessOk == /\ e.z \in Zones /\ e.v \in Vers /\ ZoneOf[e.v] = e.z
+                      /\ \/ e.k = "frag" /\ e.n \in 1..NF[e.v] /\ e.del = <<>>
+                         \/ e.k = "fetch" /\ e.n = 0 /\ ToSet(e.del) \subseteq 1..NF[e.v]
+         new == IF e.k = "frag" THEN {<<e.v, e.n>>} ELSE {<<e.v, i>> : i \in ToSet(e.del)}
+         raised == e.exc # "" /\ (e.k = "frag" \/ InScope(e.z, e.v, got[e.z]))
      IN
      /\ tid' = n
-     /\ got' = IF harnessOk THEN [got EXCEPT ![e.z] = @ \cup {<<e.v, e.n>>}] ELSE got
+     /\ got' = IF harnessOk THEN [got EXCEPT ![e.z] = @ \cup new] ELSE got
      /\ full' = [z \in Zones |-> ViewOf(e.view, z)]
-     /\ nev' = nev + 1 /\ h' = [pre |-> <<>>, ev |-> <<e.k, e.z, e.v, e.n>>]
+     /\ nev' = nev + 1 /\ h' = [pre |-> <<>>, ev |-> <<e.k, e.z, e.v, e.n>>, exc |-> e.exc]
      /\ UNCHANGED <<shared, ref, own>>
      /\ LET c == IF ~harnessOk THEN "harness"
-                 ELSE IF e.exc # "" THEN "Raises"
+                 ELSE IF raised THEN "Raises"
                  ELSE IF ~(\A z \in Zones : AssembledV(full'[z], z, got'[z])) THEN "SameOrNone"
                  ELSE ""
         IN /\ fail' = IF c = "" \/ c \in done THEN <<>> ELSE <<e.d, c>>
